@@ -170,6 +170,7 @@ def run(F, rep, tier="quick", extra=None, only=None):
     rep.floor("bounded colour types", n_types, 26)
 
     check_blankets(F, rep)
+    check_slice_bounds(F, rep)
     check_contract_applies(F, rep, [t for t in types if t.split("::")[-1] not in ("Alpha", "PreAlpha") and t in wb and t in cl and t in ca])
     return {"level": "proof"}
 
@@ -223,6 +224,49 @@ def check_hwb(F, rep, S, key, c, V, B, b_cl, b_wb):
                 sample="clamp = renormalise the lower-clamped whiteness/blackness by their sum when it exceeds 1")
     expB = R.and_(R.ge(b, 0), R.le(b, 1), R.ge(w, 0), R.le(w, 1), R.le(R.add(w, b), 1))
     check_value(rep, "BOUNDS-REF", "hwb-within:" + key, S, b_wb, B, expB, sample="0<=w<=1, 0<=b<=1, w+b<=1")
+
+
+def check_slice_bounds(F, rep):
+    """BOUNDS-SLICE: a slice is within bounds iff every item is.  `<[T] as IsWithinBounds>::is_within_bounds` starts from `true`, ANDs in
+    *every* item's answer, and may leave the loop early only when the accumulated mask `is_false()` (every lane already false: AND can
+    change nothing any more); it returns the accumulator.  Any other exit skips items whose lanes are still undecided."""
+    bs = [b for b in F.bodies if b["name"] == "is_within_bounds" and b["_impl"] is not None and b["_impl"]["self_s"] == "[T]"]
+    if len(bs) != 1:
+        rep.fail("ANCHOR", "slice:is_within_bounds", "impl IsWithinBounds for [T]: %d bodies" % len(bs))
+        return
+    b = bs[0]
+    problems = []
+    acc = None
+    for n, parents in facts.walk(b["body"]):
+        if n.get("k") == "assignop":
+            tgt = n["a"][0].get("res", {}).get("n") if n["a"][0].get("k") == "path" else None
+            rhs = n["a"][1]
+            if n.get("op") != "&=" or tgt is None or not (rhs.get("k") == "mcall" and rhs.get("n") == "is_within_bounds"):
+                problems.append("accumulation is not `acc &= item.is_within_bounds()`")
+            acc = tgt
+            if any(p.get("k") == "if" for p in parents):
+                problems.append("the accumulation is conditional")
+    if acc is None:
+        problems.append("no `&=` accumulation of the items' answers")
+    for n, parents in facts.walk(b["body"]):
+        if n.get("k") in ("break", "ret") and not (parents and parents[-1].get("src") == "ForLoopDesugar") and not any(p.get("src") == "ForLoopDesugar" and p.get("k") == "match" and n in [a.get("b") for a in p.get("arms", [])] for p in parents):
+            ifs = [p for p in parents if p.get("k") == "if"]
+            ok = False
+            if len(ifs) == 1:
+                c = ifs[0]["c"]
+                ok = c.get("k") == "mcall" and c.get("n") == "is_false" and c["r"].get("k") == "path" and c["r"].get("res", {}).get("n") == acc \
+                    and any(n is x for x, _p in facts.walk(ifs[0].get("th")))
+            if not ok:
+                problems.append("early exit that is not `if %s.is_false() { break }`" % (acc or "acc"))
+    tail = b["body"].get("e") or {}
+    if not (tail.get("k") == "path" and tail.get("res", {}).get("n") == acc):
+        problems.append("does not return the accumulator")
+    inits = [n for n, _p in facts.walk(b["body"]) if n.get("k") == "let" and isinstance(n.get("pat"), dict) and n["pat"].get("n") == acc]
+    if not (len(inits) == 1 and inits[0]["init"].get("k") == "call" and inits[0]["init"]["c"].get("n") == "from_bool"
+            and inits[0]["init"]["a"][0].get("lit", {}).get("v") == "true"):
+        problems.append("accumulator does not start from from_bool(true)")
+    rep.ob("BOUNDS-SLICE", "<[T] as IsWithinBounds>::is_within_bounds", not problems,
+           "; ".join(problems) if problems else "true, &= every item, early exit only when every lane is false, returns the accumulator", F.loc(b))
 
 
 def check_blankets(F, rep):
